@@ -116,6 +116,29 @@ def shared(ctx, RULE, fn, *args, **kw):
     return r
 
 
+def shared_from(ctx, check_cfg, fx, cfg, RULE, rules, pattern, floor, what):
+    """run another property module's per-configuration check in a scratch context and report, under this property's rule id,
+    those of its instances whose rule is in `rules` and whose name matches `pattern` (a property whose statement includes a
+    clause that a rule of a sibling decides shares exactly that rule)"""
+    import re
+    sub = Ctx(ctx.prop, ctx.tier, repo=ctx.repo, seed=ctx.seed)
+    sub._bodies = ctx._bodies
+    check_cfg(sub, fx, cfg)
+    want = re.compile(pattern)
+    n = 0
+    for i in sub.instances:
+        if i["rule"] in rules and want.search(i["instance"]):
+            n += 1
+            if i["ok"]:
+                ctx.ok(RULE, i["instance"], i.get("site"), i.get("detail"))
+    for v in sub.violations:
+        if v["rule"] in rules and want.search(v["instance"]):
+            ctx.viol(RULE, v["instance"], v["msg"], fn=v.get("fn"), site=v.get("site"), trace=v.get("trace"))
+    ctx.floor(RULE, "%s (%s)" % (what, cfg), n, floor)
+    ctx.states += sub.states
+    ctx.transitions += sub.transitions
+
+
 def load_known():
     """known_findings.txt:  open:  property=<id> key=<key> <what>   |  fixed: property=<id> <commit> <what>"""
     opens = {}
